@@ -418,8 +418,8 @@ func raceSignature(rep string) (string, bool) {
 			if f == "" {
 				break
 			}
-			if strings.HasPrefix(f, "/") || strings.HasPrefix(f, "runtime.") {
-				continue
+			if strings.HasPrefix(f, "/") || strings.HasPrefix(f, "<") || strings.HasPrefix(f, "runtime.") || strings.HasPrefix(f, "sync/atomic.") {
+				continue // (an atomic access is attributed to the function that performs it)
 			}
 			if k := strings.LastIndex(f, "("); k > 0 {
 				f = f[:k]
